@@ -14,6 +14,8 @@ void vp_init(unsigned nsucc) {
   new (&vp_node_mem.x) node_t(vp_graph(), vp_ibody_t());
   for (unsigned i = 0; i < nsucc; i++) { new (&vp_succ(i)) vp_recv(); vp_succ(i).id = i; N().register_successor(vp_succ(i)); }
 }
+// construct the harness successors that are not registered at init (the driver may register them later)
+void vp_init_extra_succ(unsigned from) { for (unsigned i = from; i < 3; i++) { new (&vp_succ(i)) vp_recv(); vp_succ(i).id = i; } }
 void vp_activate() { N().activate(); }
 unsigned vp_get(int* v) { return N().try_get(*v); }
 unsigned vp_reserve(int* v) { return N().try_reserve(*v); }
